@@ -67,6 +67,13 @@ def events_for_case(o, cid, gam, qs, ids, metrics=sd.METRICS, extra_targets=()):
             for m in metrics[(cid // 3) % 2::2]:
                 if len(sd.rel_scores(o2, m)):
                     sd.threshold_event(ev, s, o2, m, qs, gam, extra_targets=extra_targets)
+    if cid % 3 == 2 and not gam.name.startswith(("random", "big", "ulp", "half")):
+        # history: one score array of the (already queried) object is re-bound to a new array
+        o2 = sd.set_scores_event(ev, s, o, gam, cls_=["pos", "neg"][(cid // 3) % 2])
+        if o2 is not None:
+            for m in metrics:
+                if len(sd.rel_scores(o2, m)):
+                    sd.threshold_event(ev, s, o2, m, qs, gam, extra_targets=extra_targets)
     if cid % 3 == 0:
         # history: another configuration is assigned to the (already queried) object
         o2 = sd.set_config_event(ev, s, o, gam, k=cid // 3)
